@@ -167,6 +167,10 @@ pub fn set_body(rng: &mut Rng, r: &mut AReq, framing: Framing, n: usize) {
     }
 }
 
+pub fn intent_of_pub(reqs: &[AReq]) -> String {
+    intent_of(reqs)
+}
+
 fn intent_of(reqs: &[AReq]) -> String {
     let items: Vec<String> = reqs
         .iter()
